@@ -113,8 +113,10 @@ class Line:
 class Case:
     """one independent history: from a `reset` line to the line before the next `reset`"""
 
+    P2P_OPS = ("sub", "leave", "pub", "note", "get", "setsub", "setdesc", "delmsg", "delsub", "deltopic")
+
     def __init__(self, ops, outs, base):
-        self.ops, self.base = ops, base
+        self.orig_ops, self.base = ops, base
         self.lines = [Line(o) for o in outs]
         self.users, self.sess = {}, {}
         self.maxsubs = 32
@@ -126,6 +128,36 @@ class Case:
                 self.users[w[1]] = dict(auth=w[2], anon=w[3])
             elif w[0] == "sess":
                 self.sess[w[1]] = dict(user=w[2], lvl=w[3], bg="bg" in w[4:])
+        # Peer-to-peer topics: a participant addresses the topic by the other participant's name, the digests show it under the
+        # key P:<a>:<b>. The monitors work on keys: a request to `U2` by U1 is read as a request to P:U1:U2, and a frame naming
+        # `U2` which goes to a session of U1 is read as a frame about P:U1:U2. A frame that names the topic by anything else
+        # (the recipient's own name, no name) is left as it is, so that the naming rules of the monitors see it.
+        self.ops = []
+        self.p2p_arg = {}          # index -> the name the client used
+        for i, o in enumerate(ops):
+            w = o.split(" ")
+            if w[0] in self.P2P_OPS and len(w) > 2 and re.fullmatch(r"U\d+", w[2]):
+                act = self.actor(w)
+                own = act[0] if act else self.sess.get(w[1], {}).get("user", "")
+                self.p2p_arg[i] = w[2]
+                if own and own != w[2]:
+                    w[2] = "P:" + ":".join(sorted([own, w[2]]))
+            self.ops.append(" ".join(w))
+            ln = self.lines[i] if i < len(self.lines) else None
+            if ln is None or ln.plain is not None:
+                continue
+            nf = []
+            for sid, f in ln.frames:
+                own = self.sess.get(sid, {}).get("user", "")
+                if sid == (w[1] if len(w) > 1 else None) and "as=" in o:
+                    a = self.actor(o.split(" "))
+                    own = a[0] if a else own
+                fw = f.split(" ")
+                idx = 2 if fw[0] == "ctrl" else 1
+                if len(fw) > idx and re.fullmatch(r"U\d+", fw[idx]) and own and fw[idx] != own:
+                    fw[idx] = "P:" + ":".join(sorted([own, fw[idx]]))
+                nf.append((sid, " ".join(fw)))
+            ln.frames = nf
 
     def actor(self, w):
         """(uid acting, session's own uid, level) of a request op line split into words, or None when the as= is refused"""
@@ -423,8 +455,8 @@ def mon_C06(case):
         pre = prev_state(case, i)
         act = case.actor(w) if w[0] not in ("restart", "unload") and len(w) > 1 else None
         for t, row in ln.store.items():
-            if row["state"] != 0:
-                continue
+            if row["state"] != 0 or t.startswith("P:"):
+                continue               # a peer-to-peer topic has two equal participants and no owner
             ow = owners_of(row)
             prow = pre.store.get(t) if pre else None
             pow_ = owners_of(prow) if prow and prow["state"] == 0 else None
@@ -444,7 +476,7 @@ def mon_C06(case):
         if pre is not None and act is not None and len(w) > 2:
             t = w[2]
             prow = pre.store.get(t)
-            if prow is not None and prow["state"] == 0:
+            if prow is not None and prow["state"] == 0 and not t.startswith("P:"):
                 pow_ = owners_of(prow)
                 row = ln.store.get(t)
                 gone = row is None or row["state"] != 0
@@ -516,6 +548,28 @@ def mon_C07(case):
                 u = c["users"].get(uid)
                 if u is not None and not has(u["given"], "J"):
                     out.append((i, f"C07 session {sid} attached to {t} for {uid} whose grant {u['given']} lacks join"))
+        # a peer-to-peer topic: the two users of its name and nobody else; modes within JRWPA, always with A
+        for t in set(ln.store) | set(ln.cache):
+            if not t.startswith("P:"):
+                continue
+            pair = set(t[2:].split(":"))
+            for where, ent in (("stored", ln.store.get(t, {}).get("subs", {})), ("cached", ln.cache.get(t, {}).get("users", {}))):
+                before = (pre.store.get(t, {}).get("subs", {}) if where == "stored" else pre.cache.get(t, {}).get("users", {}))
+                for u, e in ent.items():
+                    pe = before.get(u)
+                    if pe is not None and (pe["want"], pe["given"], pe["deleted"]) == (e["want"], e["given"], e["deleted"]):
+                        continue           # reported when it appeared
+                    if u not in pair:
+                        out.append((i, f"C07 [p2p-third] {u} is a {where} participant of {t} after `{w[0]}`"))
+                        continue
+                    if e["deleted"]:
+                        continue
+                    for nm, m in (("requested", e["want"]), ("granted", e["given"])):
+                        extra = set(m.replace("N", "").replace("_", "")) - set("JRWPA")
+                        if extra:
+                            out.append((i, f"C07 [p2p-mode] {where} {nm} mode {m} of {u} in {t} exceeds JRWPA after `{w[0]}`"))
+                        elif not has(m, "A"):
+                            out.append((i, f"C07 [p2p-approve] {where} {nm} mode {m} of {u} in {t} lacks the approver permission after `{w[0]}`"))
     return out
 
 
@@ -577,7 +631,8 @@ def mon_C08(case):
                     out.append((i, f"C08 [failed-save] the publish failed at MessageSave after the stored counter of {t} was advanced: {d}"))
                 elif (w[0] in ("sub", "setsub") and len(w) > 2 and w[2] == t and act is not None and "TopicShare" in ln.calls
                         and pre is not None and d.startswith("private data of ")
-                        and d.split(" ")[3].rstrip(":") == (_kv(w[3:]).get("user") or act[0] if w[0] == "setsub" else act[0])
+                        and (d.split(" ")[3].rstrip(":") == (_kv(w[3:]).get("user") or act[0] if w[0] == "setsub" else act[0])
+                             or (t.startswith("P:") and w[0] == "sub"))      # a p2p load re-creates the other participant's subscription
                         and pre.store.get(t, {}).get("subs", {}).get(d.split(" ")[3].rstrip(":"), {}).get("deleted")):
                     out.append((i, f"C08 [resub-private] re-subscribing to {t} keeps the stored private data of the soft-deleted row: {d}"))
                 elif (w[0] == "setdesc" and len(w) > 2 and w[2] == t and act is not None and attached and pre is not None
@@ -1039,5 +1094,5 @@ def run_monitor(pid, ops, outs):
             if key in seen:
                 continue
             seen.add(key)
-            res.append((case.ops[:i + 1], why))
+            res.append((case.orig_ops[:i + 1], why))
     return res
